@@ -309,18 +309,28 @@ Print Assumptions c04_get_data_needs_attach.
 
 (* ---- {del msg} ---- *)
 
-(* The four outcomes of a delete request (store calls 2 and 3 not failing): refused 403 iff the
-   requester's effective mode has neither D nor R; 400 iff the range list is refused (layer 1:
+(* The four outcomes of a delete request (store calls 2 and 3 not failing).  The hard flag is
+   decided first: hard-effective = asked hard AND D in the effective mode (want & given);
+   otherwise the request is silently soft, and a soft deletion needs R.  Refused 403 iff
+   (not hard-effective and no R); 400 iff the range list is refused (layer 1:
    c04_del_ranges_accepts / _rejects_invalid); 500 on a failing first store call; else accepted:
-   reply 200 with del = delID+1, hard only if asked AND D is in the effective mode (otherwise
-   silently soft), written for everyone (user 0) when hard and for the requester when soft. *)
+   reply 200 with del = delID+1, written for everyone (user 0) when hard-effective and for the
+   requester when soft. *)
 Theorem c04_delete_request : forall f s c sid u req hard0,
   fails f 1 = true \/ (fails f 2 = false /\ fails f 3 = false) ->
   let h := del_msg del_ranges_i f s c 0 sid u req hard0 in
-  del_denied s c sid u h \/ del_malformed del_ranges_i s c sid u req h \/ del_store_failed del_ranges_i s c sid u req h \/
-  del_accepted del_ranges_i s c sid u req hard0 h.
+  del_denied s c sid u hard0 h \/ del_malformed del_ranges_i s c sid u req hard0 h \/
+  del_store_failed del_ranges_i s c sid u req hard0 h \/ del_accepted del_ranges_i s c sid u req hard0 h.
 Proof. exact (del_msg_cases del_ranges_i). Qed.
 Print Assumptions c04_delete_request.
+
+(* the gate alone, under ANY faults: 403 (nothing changed, no store call) iff
+   not (asked hard and D) and not R *)
+Theorem c04_delete_gate : forall f s c n sid u req hard0,
+  (del_gate hard0 (user_mode c u) = true -> del_msg del_ranges_i f s c n sid u req hard0 = mkH s c n [(sid, Ctrl 403 [])]) /\
+  (h_out (del_msg del_ranges_i f s c n sid u req hard0) = [(sid, Ctrl 403 [])] -> del_gate hard0 (user_mode c u) = true).
+Proof. exact del_msg_gate. Qed.
+Print Assumptions c04_delete_gate.
 
 (* the ranges handed to the store cover exactly the ids the request denotes *)
 Theorem c04_delete_ids_exact : forall last req out, del_ranges_i last req = Some out ->
@@ -347,19 +357,51 @@ Theorem c04_delid_next : forall sm s0 h c, hist_init s0 -> hist_ok sm h -> ca (r
 Proof. exact delid_next. Qed.
 Print Assumptions c04_delid_next.
 
-(* "soft deletion requires read permission": REFUTED as stated - the code asks for R only
-   when D is missing (a user with D but without R soft- or hard-deletes); it holds for every
-   requester without D, under any faults *)
-Theorem c04_soft_needs_read_refuted : ~ soft_needs_read_statement.
-Proof. exact soft_needs_read_refuted. Qed.
-Print Assumptions c04_soft_needs_read_refuted.
-
-Theorem c04_soft_needs_read_partial : forall f s c sid u req hard d,
-  is_deleter (user_mode c u) = false ->
+(* "soft deletion requires read permission" (the code after 2721db4): under ANY faults, every
+   accepted deletion that is not hard-effective - asked soft, or asked hard by a requester
+   without D and silently made soft - was made by a requester with R in want & given *)
+Theorem c04_soft_needs_read : forall f s c sid u req hard d,
+  hard && is_deleter (user_mode c u) = false ->
   h_out (del_msg del_ranges_i f s c 0 sid u req hard) = [(sid, Ctrl 200 [(P_del, d)])] ->
   is_reader (user_mode c u) = true.
-Proof. exact soft_needs_read_partial. Qed.
-Print Assumptions c04_soft_needs_read_partial.
+Proof. exact soft_needs_read. Qed.
+Print Assumptions c04_soft_needs_read.
+
+(* the same for a request of an attached session through [step], in any state *)
+Theorem c04_soft_needs_read_step : forall sm f s c n0 sid req hard d, attached c sid = true ->
+  hard && is_deleter (user_mode c (sess_uid sm sid)) = false ->
+  snd (step_i sm f (mkState s (Some c) n0) (ODelMsg sid req hard)) = [(sid, Ctrl 200 [(P_del, d)])] ->
+  is_reader (user_mode c (sess_uid sm sid)) = true.
+Proof. exact soft_needs_read_step. Qed.
+Print Assumptions c04_soft_needs_read_step.
+
+(* the gate of the code BEFORE 2721db4 ([del_gate_unrepaired]: R asked for only when D is
+   missing) is refuted - JWD without R, soft request; it held only for requesters without D;
+   the two gates differ exactly for D without R and a soft request *)
+Theorem c04_gate_soft_needs_read : gate_soft_needs_read_statement del_gate.
+Proof. exact del_gate_soft_needs_read. Qed.
+Print Assumptions c04_gate_soft_needs_read.
+
+Theorem c04_gate_unrepaired_refuted : ~ gate_soft_needs_read_statement del_gate_unrepaired.
+Proof. exact del_gate_unrepaired_refuted. Qed.
+Print Assumptions c04_gate_unrepaired_refuted.
+
+Theorem c04_gate_unrepaired_partial : forall hard0 mode,
+  is_deleter mode = false -> del_gate_unrepaired hard0 mode = false -> is_reader mode = true.
+Proof. exact del_gate_unrepaired_partial. Qed.
+Print Assumptions c04_gate_unrepaired_partial.
+
+Theorem c04_gate_differs : forall hard0 mode,
+  del_gate hard0 mode <> del_gate_unrepaired hard0 mode <-> (is_deleter mode = true /\ is_reader mode = false /\ hard0 = false).
+Proof. exact del_gate_differs. Qed.
+Print Assumptions c04_gate_differs.
+
+(* non-vacuity: a JWD user's soft delete is refused, his hard one accepted; the owner soft-deletes *)
+Example c04_ex_soft_needs_read :
+  h_out (del_msg del_ranges_i NoFault wit_store wit_cache 0 2%N 2%N [(1, 0)] false) = [(2%N, Ctrl 403 [])] /\
+  h_out (del_msg del_ranges_i NoFault wit_store wit_cache 0 2%N 2%N [(1, 0)] true) = [(2%N, Ctrl 200 [(P_del, 1)])] /\
+  h_out (del_msg del_ranges_i NoFault wit_store wit_cache 0 1%N 1%N [(1, 0)] false) = [(1%N, Ctrl 200 [(P_del, 1)])].
+Proof. exact soft_needs_read_example. Qed.
 
 (* ---- {get del} ---- *)
 
